@@ -304,6 +304,22 @@ def _n_requests(pool: typing.Any) -> int:
     return int(m.group(1)) + int(m.group(2))
 
 
+def n_queued(pool: typing.Any) -> int:
+    """Requests waiting for a connection, from the public repr()."""
+    from .native import call_native
+
+    return call_native(_n_queued, pool)
+
+
+def _n_queued(pool: typing.Any) -> int:
+    import re
+
+    m = re.search(r"Requests: (\d+) active, (\d+) queued", repr(pool))
+    if not m:
+        raise HarnessError_("cannot read the request counts from repr(pool)")
+    return int(m.group(2))
+
+
 class HarnessError_(Exception):
     pass
 
